@@ -19,6 +19,73 @@ CLAIMED = {
   design="5/C20"),
 }
 
+CODEC_NOTE = ("Trusted: Coq kernel (coqc 8.16.1; vm_compute for table sweeps and for evaluating the model on cases), the translator (escape tables, markers), "
+              "the Go driver harness/codecdrv compiled at check time against bindings produced by the REAL generator of the current tree from the family "
+              "manifest (checks/family.py), the generated cases_*.v. Modelled, not verified: strconv float text (the driver records Go's own text / parse result per "
+              "float: the oracle is strconv), easyjson's lexer (strict RFC 8259 parser Codec/Json.v, claimed only on well-formed documents), net/url unescaping. "
+              "v2 module only (the root module's codec is not exercised). Custom typerefs and partial-update structs are not modelled. No axioms (Print Assumptions: closed).")
+
+def codec(text, technique, design):
+    return dict(text=text, note=CODEC_NOTE, technique=technique, design=design)
+
+CLAIMED.update({
+ "C01": codec("Coq proofs that every escaper of the current tree is inverted by the matching decoder for ALL byte strings and that integer text round-trips "
+              "(more round-trip theorems over the cursor-level ROR2 reader are being added in Props/C01_ror2.v), about an executable model of the generated "
+              "marshal/unmarshal code + restlicodec writers/readers; the model is tied to the code on every run: ~2.3k family values (byte pool with every metacharacter, "
+              "single-byte sweep over all 256 bytes in values/keys/bytes) are encoded by the real bindings in the 5 wire formats and decoded back, the model must produce the "
+              "same bytes and the same decoded value, and the round-trip predicate (Equals + structural equality) is evaluated on the implementation directly.",
+              "Rocq proof over a schema-generic encoder/decoder model + translator-regenerated escape tables + differential correspondence through the real generator", "5/C01"),
+ "C04": codec("Coq proof, for ALL byte strings, schemas and types, that the cursor-level ROR2 reader model (every Go index expression explicit) and the JSON tree decoder never reach "
+              "a panic (decR_never_panics, decode_ror2_never_panics, decJ_never_panics) with the lemmas showing why (each index is guarded; the strict '>' of atArray is needed); "
+              "correspondence: every string up to length 3 (quick) / 5 (thorough) over the ROR2 delimiter alphabet x 6 family types x 2 readers, and truncations/single-byte edits of valid "
+              "encodings, decoded by the real readers - outcome class and value must equal the model's; JSON bodies: no-panic oracle only (the lexer is external).",
+              "Rocq no-panic proof of a cursor-level reader model + exhaustive bounded-alphabet differential correspondence", "5/C04"),
+ "C06": codec("Executable model of readRecord / the missing-field tracker / generated UnmarshalField (JSON tree level and ROR2 cursor level) with theorems being added (Props/C06.v); "
+              "correspondence + independent oracle: reference encodings of family values mutated by deleting random field subsets at every depth, nulling, permuting keys and injecting unknown "
+              "fields, decoded by the JSON, ROR2, query-parameter (aggregate) and untyped readers; the reported field set must equal the independently computed set of absent required fields and "
+              "the model must agree on class, field list and partial value.",
+              "Rocq model of the decoders + independent missing-set oracle + differential correspondence", "5/C06"),
+ "C07": codec("Coq proofs for ALL directive sets / paths / values: ps_matches (genericMatches) is equivalent to an independent declarative specification exactly under a characterised "
+              "well-formedness condition (weakest premise proved), whole subtrees are excluded, the reader rejects iff the scope matches after dropping the ignored leading scope, excluded required fields "
+              "are never reported missing, and the writer's output with an exclusion spec is exactly the pruning of its output without (writer_omits_exactly); refuted corner cases kept as witnesses; "
+              "correspondence: writers and readers constructed WithExcludedFields on family values x random specs, bytes/outcomes equal the model's, plus an independent prune/carries oracle.",
+              "Rocq proof of PathSpec matching vs a declarative spec + writer/reader exclusion lemmas + differential correspondence", "5/C07"),
+ "C09": codec("Coq proofs for ALL values: the encoder model's output is invariant under permutation of map entries at any depth (encode_perm_invariant, all five formats), object keys are strictly "
+              "ascending (keys_ascending under wf_env), sort_entries is a sorted permutation and sorted permutations with unique keys are equal; correspondence: values with maps encoded 8x in-process "
+              "and in fresh processes (different hash seeds), shuffled query parameters; all outputs identical and equal to the model's.",
+              "Rocq proof of permutation invariance of the canonical encoder + multi-process differential correspondence", "5/C09"),
+ "C11": codec("Executable model of union/enum/fixed validation on encode and decode with theorems being added (Props/C11.v); correspondence + oracle: values drawn with violations allowed "
+              "(all member subsets, illegal enum constants) must fail to encode iff invalid; invalid documents (0/2 members, unknown alias, fixed of every length 0..7, unknown enum symbols) must be rejected "
+              "/ decode to the unknown constant; model agrees on every outcome. Partial-update (patch) constraints are not modelled: that part of C11 is not decided.",
+              "Rocq model of validity constraints + exhaustive small-domain differential correspondence", "5/C11"),
+ "C13": codec("Executable model of populateLocalDefaultValues / decode-time default filling with theorems being added (Props/C13.v); correspondence + oracle: documents omitting random subsets of defaulted "
+              "fields (direct, nested, included) decoded by the JSON, ROR2 and untyped readers, New...WithDefaultValues constructors, instance freshness; known finding D28 (defaults of included records).",
+              "Rocq model of default filling + differential correspondence + freshness oracle", "5/C13"),
+ "C05": dict(text="Coq proofs for ALL resource trees and requests: the router model dispatches iff an independently written declarative spec says so (route_iff_spec), uniquely, unrouted requests get 404/400 "
+                  "as specified with no filter or resource code run, the inference switch (regenerated from handler.go's AST on every run, both modules) equals a protocol table on the whole finite product, "
+                  "filters order, Handler() snapshot semantics via a heap model refinement, mount independence under a stated premise (+ refuted witness for dot segments through ServeMux); "
+                  "correspondence: 1.3M requests (quick) against the real v2 and root servers built from hand-registered trees, outcomes equal the model's.",
+             note="Trusted: kernel, translator (method table, header names, inference switch transcribed from the AST), Go driver; net/http ServeMux behaviour is modelled; decode errors after dispatch are out of scope. "
+                  "Known finding: a key '.' or '..' is redirected by ServeMux (mount:servemux-redirects-dot-segment).",
+             technique="Rocq proof of a router model vs a declarative spec + AST-regenerated inference table + exhaustive request-product correspondence", design="5/C05"),
+ "C12": dict(text="Coq proofs about models of the identifier rules and the type registry (exported_identifier_valid, registry_total, acyclic_input_untouched, duplicates_only_in_conflict_resolution) and three "
+                  "refuted full statements with witness manifests replayed on the real generator; what proof cannot decide (output compiles, byte-identical regeneration, checked-in bindings equal regenerated ones) "
+                  "is decided by generator runs: 12 (quick) / 110 (thorough) manifests, 3 fresh processes each, go build/vet/test of the output.",
+             note="PARTIAL: 'the output compiles and type-checks' is decided by test runs, not by proof (no formal Go type checker). Trusted: kernel, translator, drivers; Go map iteration, regexp, jennifer and the Go tool chain are modelled or external. "
+                  "Root-module generator not covered. Four known findings in type_registry.go.",
+             technique="Rocq proof of registry/identifier core + multi-process generator runs (test) for compilation and determinism", design="5/C12 and 7"),
+ "C18": dict(text="Coq proofs for UNBOUNDED programs (any number of goroutines, operations, keys, any schedule) over a small-step model at the granularity of sync.Map operations and WaitGroup signals: compute at most once, "
+                  "no placeholder escapes, no blocking after return, racing callers agree, store not lost, no deadlock, and linearizability by forward simulation; correspondence: 28k (quick) forced schedules on the real "
+                  "LazySyncMap of both modules through tag-guarded yield hooks, observations equal the model's, plus a brute-force linearizability oracle.",
+             note="Trusted: kernel, translator (shape of lazymap.go), the schedule-forcing controller; atomicity of sync.Map calls and WaitGroup semantics are modelled, not verified; the Go scheduler/memory model are outside the model.",
+             technique="Rocq invariants + forward simulation over a small-step model + forced-schedule correspondence via verif-tag hooks", design="5/C18"),
+ "C19": dict(text="Coq proofs for ALL event histories and announcement sets: the tracked URIs equal an independent fold spec, earlier snapshots are never written (heap model), the chosen host is eligible and of the best scheme, "
+                  "never zero-weight while a positive-weight host is eligible (full strength after fix f35562a), proportionality as an interval characterisation over Q, errors when none eligible; correspondence: exhaustive histories "
+                  "up to length 5/6 through tag-guarded exports on both modules, selection results must lie in the model's set over all iteration orders.",
+             note="Trusted: kernel, drivers; weights are rationals in the model (Go computes in float64: named gap); Go map iteration = universally quantified permutation; ZooKeeper/treecache not modelled.",
+             technique="Rocq proof over event-fold and weighted-choice models + exhaustive history correspondence via verif-tag exports", design="5/C19"),
+})
+
 def main():
     checks, na = [], []
     for p in ALL:
